@@ -8,6 +8,8 @@ VARIABLES phase, pieces
 
 Vocab == <<S("a"), S("A"), S("example.com"), S("gopkg.in"), S("yaml.v2"), S("pkg.v0"), S("x.v1-unstable"), S("x.v-unstable"), S("y.v0-unstable"),
            S("v1"), S("v2"), S("v02"), S("v2.1"), S("v10"), S("con"), S("CoN.txt"), S("x.con"), S("com1"), S("lpt9.a"), S("a~1"), S("a~1.go"), S("a.b~2"),
+           \* the reserved-name and short-name rules look at what stands before the FIRST dot; major numbers of two digits
+           S("con.tar.gz"), S("Com1.a.b"), S("a~1.b.c"), S("yaml.v10"), S("x.v12-unstable"), S("v19"),
            S("~"), S("."), S(".."), S(".a"), S("a."), S("a..b"), S("-a"), S("a+"), <<233>>, S("a b"), S("!"), S("@"), <<-255>>, S("/"), S("x-")>>
 NV == Len(Vocab)
 RECURSIVE TextOf(_)
